@@ -4,6 +4,11 @@ import json, os
 HERE = os.path.dirname(os.path.abspath(__file__))
 
 CLAIMED = {
+ 'C18': dict(
+   text='PARTIAL. Numeric values of gcds/inverses and primality by trial division are value-level and not claimed. Decided: in ext_gcd a path-sensitive abstract interpretation of the bool locals (contents "a<0", "b<0", true, false; std::swap and copies tracked; branches on known flags pruned) shows that every sign selector flowing into the coefficient of a holds "a was negative" and likewise for b, on every path; a symbolic interval analysis with bounds linear in p (sum, product, % p, the two normalisation while-loops or a single conditional subtraction, v != 0 guards) shows that every value pushed into an SpVecFP lies in [1, p-1]; operator+ and the dot product have the merge action tables of index-wise addition / inner product with both tails; compound operators are alias-safe and copy operations member-wise; a constant-divisor shortcut in is_prime never calls the divisor itself composite; get_mult_inverse throws unless the gcd is 1 and returns the coefficient of its first argument.',
+   note='Induction hypothesis: stored entries are in [1,p-1] and both operands share p >= 2; % truncates toward zero. Multiprecision instantiations are covered only in so far as they instantiate the same templates.',
+   technique='path-sensitive abstract interpretation over a finite flag domain; symbolic interval analysis (bounds c + k*p); merge-loop action tables',
+   ref='DESIGN.md §4 C18'),
  'C16': dict(
    text='PARTIAL. That the BFS forest is spanning and acyclic is value-level and not claimed. Decided: create_index makes exactly one pass over boost::edges(g) in which each arm stores index[e] = c and reverse_index[c] = e for the same edge and counter and then increments that counter once, one arm per counter, the counters start at 0 and at num_edges - num_vertices + components (linear-form normalisation through the class\'s field definitions), the arm is selected by membership in the forest set with the right polarity, no index is handed out while iterating an address-ordered set; cycle_space_dimension / weak_connected_components / is_on_forest / both operator() have the required normal forms; spanning_forest returns 0 early only when there are no vertices (abstract evaluation of the guard) and otherwise a counter incremented exactly once per component-loop iteration; the hand-written copy constructor and assignment copy every data member.',
    note='Together these give the bijection and the "off-forest edges first" numbering for whatever edge set spanning_forest reports; the forest property of that set is assumed.',
